@@ -109,7 +109,7 @@ pub fn run_c18(tier: &str) -> Report {
         other => rep.sink.push(viol("C18/base-cell-ids", format!("get_res0_cells() = {:?}", other), json!({"kind": "res0"}))),
     }
     // --- nearest-face selection on the sphere lattice
-    let n = if tier == "replay-relabel" { 128 } else if tier == "quick" { 16384 } else { 1 << 20 };
+    let n = if tier == "replay-relabel" { 128 } else if tier == "quick" { 131072 } else { 1 << 20 };
     let pts = en::sphere_lonlat(n, tier == "thorough");
     let vs: Vec<Viol> = pts.par_iter().flat_map(|&(lon, lat, _)| check_nearest(&f, lon, lat)).collect();
     rep.sink.extend(vs);
@@ -235,7 +235,7 @@ fn inv(phi: f64) -> f64 {
 
 pub fn run_c19(tier: &str) -> Report {
     let mut rep = Report::new("exploration");
-    let bits = if tier == "quick" { 20 } else { 24 };
+    let bits = if tier == "quick" { 22 } else { 24 };
     let n: u64 = 1 << bits;
     let half = rg::PI / 2.0;
     let worst = Mutex::new([0.0f64; 3]);
